@@ -25,11 +25,20 @@ def fxk(v):
   return int(round(float(v) * KDEN))
 
 
-def pwl_events(tf, tfl, ctx, kp, cyclic, K, X, mode, rng, xscale=1.0):
+def pwl_events(tf, tfl, ctx, kp, cyclic, K, X, mode, rng, xscale=1.0, dtype="float32", xshift=0.0):
   """K: (rows, units), X: (batch,) grid. mode selects input shape / missing handling. xscale (a power of two)
   rescales the input axis: keypoints and inputs are multiplied by it, the function values must not change."""
-  kp = [float(v) * xscale for v in kp]
-  X = np.asarray(X, dtype=np.float64) * xscale
+  # dtype / xshift: a float64 layer on an input axis translated by xshift (exactly representable in float64 only);
+  # the trace keeps the untranslated axis, the function values must not change
+  ft = np.float32 if dtype == "float32" else np.float64
+  tft = tf.float32 if dtype == "float32" else tf.float64
+  kp0 = [float(v) * xscale for v in kp]
+  kp = [v + xshift for v in kp0]
+  X = np.asarray(X, dtype=np.float64) * xscale + xshift
+  if dtype != "float32":
+    kw_dtype = {"dtype": dtype}
+  else:
+    kw_dtype = {}
   xden = XDEN / xscale
   units = K.shape[1]
   kw = {}
@@ -45,46 +54,47 @@ def pwl_events(tf, tfl, ctx, kp, cyclic, K, X, mode, rng, xscale=1.0):
       MO[:] = 0.75
   if mode == "split":
     kw["split_outputs"] = True
-  layer = pwl_layer(tfl, kp, units, cyclic, **kw)
+  layer = pwl_layer(tfl, kp, units, cyclic, **kw, **kw_dtype)
   per_unit = mode in ("per_unit", "split") and units > 1
   try:
     layer.build((None, units if per_unit else 1))
   except ValueError:      # rejected at build time (e.g. a cyclic calibrator with two keypoints): not a C05 case
     ctx.extra["rejected_at_build"] = ctx.extra.get("rejected_at_build", 0) + 1
     return []
-  layer.kernel.assign(K.astype(np.float32))
+  layer.kernel.assign(K.astype(ft))
   if mode in ("missing_value_learned", "is_missing"):
     MO = (rng.integers(-32, 33, size=units) / 16.0).astype(np.float32)
-    layer.missing_output.assign(MO.reshape(1, units))
-  if missing_x is not None and xscale == 1.0:
+    layer.missing_output.assign(MO.reshape(1, units).astype(ft))
+  if missing_x is not None and xscale == 1.0 and dtype == "float32":
     # the float32 neighbours of the missing value are ordinary inputs (only equality means "missing")
     m32 = np.float32(missing_x)
     X = np.concatenate([X, [float(np.nextafter(m32, np.float32(np.inf))), float(np.nextafter(m32, np.float32(-np.inf))),
                             float(m32) + 4e-7, float(m32) - 4e-7]])
   if per_unit:
-    Xin = np.stack([np.roll(X, u) for u in range(units)], axis=1).astype(np.float32)
+    Xin = np.stack([np.roll(X, u) for u in range(units)], axis=1).astype(ft)
   else:
-    Xin = X.reshape(-1, 1).astype(np.float32)
+    Xin = X.reshape(-1, 1).astype(ft)
   miss = np.zeros_like(Xin)
   if mode == "is_missing":
-    miss = (rng.random(Xin.shape) < 0.3).astype(np.float32)
-    out = layer([tf.constant(Xin), tf.constant(miss)])
+    miss = (rng.random(Xin.shape) < 0.3).astype(ft)
+    out = layer([tf.constant(Xin, dtype=tft), tf.constant(miss, dtype=tft)])
   else:
-    out = layer(tf.constant(Xin))
+    out = layer(tf.constant(Xin, dtype=tft))
     if missing_x is not None:
-      miss = (Xin == np.float32(missing_x)).astype(np.float32)
+      miss = (Xin == ft(missing_x)).astype(ft)
   if isinstance(out, list):
     out = np.concatenate([o.numpy() for o in out], axis=1)
   else:
     out = out.numpy()
   evs = []
-  kpr = [rat(v) for v in kp]
+  kpr = [rat(v) for v in kp0]
   for u in range(units):
     kints = [fxk(v) for v in K[:, u]]
     for r in range(len(X)):
-      xv = float(Xin[r, u if per_unit else 0])
+      xv = float(Xin[r, u if per_unit else 0]) - xshift
       m = bool(miss[r, u if per_unit else 0] > 0)
-      call = {"kp": [float(v) for v in kp], "cyclic": cyclic, "k": [float(v) for v in K[:, u]], "x": xv, "mode": mode}
+      call = {"kp": [float(v) for v in kp], "cyclic": cyclic, "k": [float(v) for v in K[:, u]], "x": xv + xshift, "mode": mode,
+              "dtype": dtype, "xshift": xshift}
       if not common.all_finite([out[r, u]]):
         evs.append({"ev": "NonFinite", "site": SITE, "call": call})
         continue
@@ -99,7 +109,7 @@ def pwl_events(tf, tfl, ctx, kp, cyclic, K, X, mode, rng, xscale=1.0):
                 "outs": [int(round(float(v) * ODEN)) for v in ko[:, u]], "tolu": 6, "site": SITE,
                 "call": {"kp": [float(v) for v in kp], "k": [float(v) for v in K[:, u]], "mode": "keypoints_outputs"}})
     evs.append({"ev": "KpIn", "kp": kpr, "xden": int(xden) if xden >= 1 else 1,
-                "ins": [int(round(float(v) * xden)) if xden >= 1 else int(round(float(v))) for v in ki[:, u]],
+                "ins": [int(round((float(v) - xshift) * xden)) if xden >= 1 else int(round(float(v) - xshift)) for v in ki[:, u]],
                 "site": SITE, "call": {"kp": [float(v) for v in kp], "mode": "keypoints_inputs"}})
   ctx.count(units * len(X))
   return evs
@@ -222,6 +232,20 @@ def run(ctx):
         ctx.nontrivial.add((str(kp), cyclic, "xscale", xscale))
       except Exception as ex:  # pylint: disable=broad-except
         events.append({"ev": "Raised", "site": SITE, "exc": repr(ex)[:300], "call": {"kp": kp, "cyclic": cyclic, "xscale": xscale}})
+  # float64 layers: the same functions on an input axis translated by an offset that only float64 can carry
+  # (timestamps); every mode, cyclic or not
+  for j, xshift in enumerate((0.0, 1.6e9 + 1800.0, -(2.0 ** 40) - 0.5, 2.0 ** 33 + 0.25)):
+    for kp, cyclic in (([0, 1, 3, 4], False), ([0, 2, 3, 5], True), ([1, 2, 4, 5, 8], False)):
+      nk = len(kp) - (1 if cyclic else 0)
+      K = (rng.integers(-32, 33, size=(nk, 2)) / 16.0).astype(np.float32)
+      xg = np.array(sorted({v for k0 in kp for v in (k0, k0 + 0.5, k0 - 0.25)} | {kp[0] - 3.0, kp[-1] + 2.0}))
+      mode = modes[(j * 3 + len(kp)) % len(modes)]
+      try:
+        events += pwl_events(tf, tfl, ctx, kp, cyclic, K, xg, mode, rng, dtype="float64", xshift=xshift)
+        ctx.nontrivial.add((str(kp), cyclic, "float64", xshift))
+      except Exception as ex:  # pylint: disable=broad-except
+        events.append({"ev": "Raised", "site": SITE, "exc": repr(ex)[:300],
+                       "call": {"kp": kp, "cyclic": cyclic, "dtype": "float64", "xshift": xshift, "mode": mode}})
   log("  %d PWL events" % len(events))
   ctx.sample({k: events[len(events) // 2].get(k) for k in ("ev", "kp", "cyclic", "k", "x", "missing", "out", "oden")})
   cevents = []
